@@ -7,7 +7,7 @@
    level (nsmap, child order, subtype element names, bundles) is not modelled: it is
    decided per run by the strict-content round-trip oracle (partial). *)
 From Coq Require Import String List ZArith.
-From Prov Require Import Str Sexp Tables Nsm NsmProofs Values Record World JsonProofs Xml XmlProofs.
+From Prov Require Import Str Sexp Tables Nsm NsmProofs Values Record World JsonProofs Xml XmlProofs IsoProofs TimeProofs.
 Import ListNotations.
 Open Scope string_scope.
 
@@ -49,6 +49,19 @@ Print Assumptions C02_value_ref.
 
 (* what the writer decides, on the grid attribute class x value kind x force_types *)
 Definition exq l := mkQn (mkNs "ex" "http://e/") l.
+(* datetimes: typed xsd:dateTime on ordinary attributes, plain text on prov:time /
+   prov:startTime / prov:endTime (as repaired: no other attribute loses the type) *)
+Theorem C02_value_time : forall ft c m a t, Builtins m -> plain_attr a -> valid_dt t = true ->
+  xml_reinsert ft c m a (VTime t) = Done m (Some (VTime t)).
+Proof. exact xml_value_time. Qed.
+Print Assumptions C02_value_time.
+Theorem C02_value_formal_time : forall ft c m a t, is_qname_attr a = false -> is_time_attr a = true ->
+  valid_dt t = true -> xml_reinsert ft c m a (VTime t) = Done m (Some (VTime t)).
+Proof. exact xml_value_formal_time. Qed.
+Example C02_formal_time_attrs : forall l, In l ["time"; "startTime"; "endTime"] ->
+  is_qname_attr (prov_qn l) = false /\ is_time_attr (prov_qn l) = true.
+Proof. exact formal_time_attrs. Qed.
+
 Example C02_decisions :
   map (fun p => let '(ft, a, v) := p in let x := xml_emit ft a v in (x_text x, x_type x, x_ref x))
       [(false, exq "k", VStr "s"); (true, exq "k", VStr "s"); (false, prov_qn "type", VStr "s");
